@@ -6,15 +6,26 @@ import re
 
 from ..engine import rule
 from ..py_frontend import (dotted, call_name, calls_under, walk, param_names, bind_call, is_name,
-                           src, pycfg)
+                           src, pycfg, pmatch, pfind)
+
+
+def _first_param(fn):
+    a = fn.args.posonlyargs + fn.args.args
+    return a[0].arg if a else None
 
 
 def _registration_function(ctx, mod):
     """the function that partitions the fields and registers the class (dataclass() itself, or a
     helper it delegates to)"""
-    cands = [(q, f) for q, f in mod.funcs.items() if '.' not in q and
-             any(isinstance(s, ast.For) and 'dataclasses.fields(cls)' in src(s.iter) for s in f.body)]
-    ctx.require(len(cands) == 1, 'optree.dataclasses: %d functions partition dataclasses.fields(cls)'
+    cands = []
+    for q, f in mod.funcs.items():
+        if '.' in q:
+            continue
+        c = _first_param(f)
+        if c and any(isinstance(s, ast.For) and pmatch(s.iter, 'dataclasses.fields(?c)', {'c': c})
+                     for s in f.body):
+            cands.append((q, f))
+    ctx.require(len(cands) == 1, 'optree.dataclasses: %d functions partition dataclasses.fields(<class>)'
                 % len(cands))
     q, f = cands[0]
     if q != 'dataclass':
@@ -25,27 +36,42 @@ def _registration_function(ctx, mod):
     return f, q
 
 
+def _is_true_default(mod, e):
+    """expression is the constant True, or a module-level name bound to True"""
+    if isinstance(e, ast.Constant):
+        return e.value is True
+    if isinstance(e, ast.Name):
+        d = mod.top_assign(e.id)
+        return isinstance(d, ast.Constant) and d.value is True
+    return False
+
+
 # ---------------------------------------------------------------------------------------------
 @rule('DC1', floor=6, title='dataclass fields are partitioned by the pytree_node flag; one name tuple feeds children, entries and unflatten')
 def dc1(ctx):
+    """Matches are structural (py_frontend.pmatch): local variable names are metavariables, so
+    renaming `children_field_names`, `f`, `kwargs` ... changes nothing; what must agree is which
+    value flows where."""
     pkg = ctx.py()
     mod = pkg.mod('optree.dataclasses')
     fn, fq = _registration_function(ctx, mod)
-    loop = [s for s in fn.body if isinstance(s, ast.For) and 'dataclasses.fields(cls)' in src(s.iter)]
-    ctx.require(len(loop) == 1, 'partition loop over dataclasses.fields(cls) not found')
+    cls = _first_param(fn)
+    loop = [s for s in fn.body if isinstance(s, ast.For) and pmatch(s.iter, 'dataclasses.fields(?c)', {'c': cls})]
+    ctx.require(len(loop) == 1 and isinstance(loop[0].target, ast.Name),
+                'partition loop over dataclasses.fields(<class>) not found')
     lp = loop[0]
-    fvar = lp.target.id
+    env = {'f': lp.target.id, 'c': cls}
     top = lp.body[0] if lp.body else None
     ok = isinstance(top, ast.If)
     why = 'partition loop body is not an if/elif'
     if ok:
-        t = src(top.test)
-        ok = re.fullmatch(r"%s\.metadata\.get\('pytree_node', _PYTREE_NODE_DEFAULT\)" % fvar, t) is not None
-        why = 'children are selected by `%s`' % t
-        default = mod.top_assign('_PYTREE_NODE_DEFAULT')
+        m = pmatch(top.test, "?f.metadata.get('pytree_node', ??d)", env)
+        ok = m is not None
+        why = 'children are selected by `%s`' % src(top.test)
         if ok:
-            ok = isinstance(default, ast.Constant) and default.value is True
-            why = 'default of the pytree_node flag is %s' % (src(default) if default is not None else None)
+            d = top.test.args[1]
+            ok = _is_true_default(mod, d)
+            why = 'default of the pytree_node flag is %s' % src(d)
     ctx.check('dataclass/children-selected-by-flag', ok,
               'a field is a child iff metadata["pytree_node"] (default True) is set',
               'children selection: %s' % why, mod.loc(lp))
@@ -53,59 +79,79 @@ def dc1(ctx):
     ok_rej = ok_meta = False
     if isinstance(top, ast.If):
         inner = top.body
-        rej = [s for s in inner if isinstance(s, ast.If) and src(s.test) == 'not %s.init' % fvar and
+        rej = [s for s in inner if isinstance(s, ast.If) and pmatch(s.test, 'not ?f.init', env) and
                any(isinstance(x, ast.Raise) and call_name(x.exc) == 'TypeError' for x in s.body)]
-        assign_children = [s for s in inner if isinstance(s, ast.Assign) and
-                           src(s.targets[0]) == 'children_fields[%s.name]' % fvar]
-        ok_rej = bool(rej) and bool(assign_children) and inner.index(rej[0]) < inner.index(assign_children[0])
+        assign_children = [(s, pmatch(s, '?cf[?f.name] = ?f', env)) for s in inner]
+        assign_children = [(s, e) for s, e in assign_children if e is not None]
+        ok_rej = bool(rej) and bool(assign_children) and \
+            inner.index(rej[0]) < inner.index(assign_children[0][0])
+        if assign_children:
+            env = assign_children[0][1]
         if len(top.orelse) == 1 and isinstance(top.orelse[0], ast.If):
             e = top.orelse[0]
-            ok_meta = src(e.test) == '%s.init' % fvar and any(
-                isinstance(s, ast.Assign) and src(s.targets[0]) == 'metadata_fields[%s.name]' % fvar
-                for s in e.body) and not e.orelse
+            stores = [pmatch(s, '?mf[?f.name] = ?f', env) for s in e.body]
+            stores = [x for x in stores if x is not None and x['mf'] != x.get('cf')]
+            ok_meta = pmatch(e.test, '?f.init', env) is not None and bool(stores) and not e.orelse
+            if stores:
+                env = stores[0]
     ctx.check('dataclass/non-init-child-rejected', ok_rej,
               'a pytree_node field with init=False raises TypeError before it is recorded as a child',
               'non-init pytree_node fields are not rejected before being recorded', mod.loc(lp))
     ctx.check('dataclass/metadata-is-init-non-node', ok_meta,
               'metadata fields are exactly the non-node fields with init=True',
-              'metadata partition is not `elif f.init: metadata_fields[...]`', mod.loc(lp))
+              'metadata partition is not `elif <field>.init: <metadata map>[...] = <field>`', mod.loc(lp))
+    # the generated functions: flatten returns a 3-tuple, unflatten rebuilds through the class
+    nested = [f for q, f in mod.funcs.items() if q.startswith(fq + '.') and q.count('.') == 1]
+    fl = [f for f in nested if any(isinstance(s, ast.Return) and isinstance(s.value, ast.Tuple) and
+                                   len(s.value.elts) == 3 for s in f.body)]
+    un = [f for f in nested if f not in fl and
+          any(isinstance(s, ast.Return) and isinstance(s.value, ast.Call) and is_name(s.value.func, cls)
+              for s in f.body)]
+    ctx.require(len(fl) == 1 and len(un) == 1, 'generated flatten/unflatten functions not found')
+    fl, un = fl[0], un[0]
     # the same name tuple everywhere
-    fl = mod.funcs.get(fq + '.flatten_func')
-    un = mod.funcs.get(fq + '.unflatten_func')
-    ctx.require(fl is not None and un is not None, 'generated flatten/unflatten functions not found')
-    names_def = [s for s in fn.body if isinstance(s, ast.Assign) and is_name(s.targets[0], 'children_field_names')]
-    ok = len(names_def) == 1 and src(names_def[0].value) == 'tuple(children_fields)'
+    names = [e for e in (pmatch(s, '?names = tuple(?cf)', env) for s in fn.body) if e is not None]
+    ok = len(names) == 1 and 'cf' in env
+    if names:
+        env = names[0]
     ret = [s for s in fl.body if isinstance(s, ast.Return)]
     okf = False
-    if ret and isinstance(ret[0].value, ast.Tuple) and len(ret[0].value.elts) == 3:
+    if ok and ret and isinstance(ret[0].value, ast.Tuple) and len(ret[0].value.elts) == 3:
         c, m, e = ret[0].value.elts
-        cdef = [s for s in fl.body if isinstance(s, ast.Assign) and is_name(s.targets[0], src(c))]
-        okf = is_name(e, 'children_field_names') and bool(cdef) and \
-            re.fullmatch(r'tuple\(\(?getattr\(obj, (\w+)\) for \1 in children_field_names\)?\)',
-                         src(cdef[0].value)) is not None
-    oku = any(isinstance(s, ast.Assign) and src(s.value) == 'dict(zip(children_field_names, children))'
-              for s in un.body)
+        fenv = dict(env, o=_first_param(fl))
+        cdef = [x for x in (pmatch(s, '?cv = tuple(getattr(?o, ?n) for ?n in ?names)', fenv)
+                            for s in fl.body) if x is not None]
+        okf = is_name(e, env['names']) and bool(cdef) and is_name(c, cdef[0]['cv'])
+    oku = okc = False
+    ups = [a.arg for a in un.args.posonlyargs + un.args.args]
+    if ok and len(ups) == 2:
+        uenv = dict(env, meta=ups[0], ch=ups[1])
+        kws = [x for x in (pmatch(s, '?kw = dict(zip(?names, ?ch))', uenv) for s in un.body) if x is not None]
+        oku = bool(kws)
+        if kws:
+            uenv = kws[0]
+            # unflatten re-creates through the constructor (so __post_init__ runs again)
+            okc = any(isinstance(s, ast.Return) and pmatch(s.value, '?c(**?kw)', uenv) for s in un.body) and \
+                any(isinstance(s, ast.Expr) and pmatch(s.value, '?kw.update(?meta)', uenv) for s in un.body)
     ctx.check('dataclass/one-name-tuple', ok and okf and oku,
-              'children order, path entries and unflatten keywords all come from children_field_names = tuple(children_fields)',
+              'children order, path entries and unflatten keywords all come from one tuple of the '
+              'children field names',
               'children (%s), entries (%s) and unflatten (%s) do not share one name tuple'
               % (ok, okf, oku), mod.loc(fl))
-    # unflatten re-creates through the constructor (so __post_init__ runs again)
-    okc = any(isinstance(s, ast.Return) and src(s.value) == 'cls(**kwargs)' for s in un.body) and \
-        any(src(s) == 'kwargs.update(metadata)' for s in un.body)
     ctx.check('dataclass/unflatten-via-constructor', okc,
               'unflatten calls cls(**children, **metadata): __init__/__post_init__ run again',
-              'unflatten does not rebuild through cls(**kwargs)', mod.loc(un))
+              'unflatten does not rebuild through <class>(**kwargs) with the metadata merged in', mod.loc(un))
     # registration: same namespace, DataclassEntry
     regs = [c for c in calls_under(fn) if call_name(c) == 'register_pytree_node']
     okr = False
     if len(regs) == 1:
         kw = {k.arg: src(k.value) for k in regs[0].keywords}
         a = [src(x) for x in regs[0].args]
-        okr = a == ['cls', 'flatten_func', 'unflatten_func'] and kw == {
+        okr = a == [cls, fl.name, un.name] and kw == {
             'path_entry_type': 'DataclassEntry', 'namespace': 'namespace'}
     ctx.check('dataclass/registered-in-namespace', okr,
               'the class is registered with the generated functions, DataclassEntry and the caller\'s namespace',
-              'registration call is not register_pytree_node(cls, flatten_func, unflatten_func, '
+              'registration call is not register_pytree_node(<class>, <flatten>, <unflatten>, '
               'path_entry_type=DataclassEntry, namespace=namespace)', mod.loc(fn))
 
 
@@ -117,37 +163,40 @@ DC_KW_VERSIONED = ['match_args', 'kw_only', 'slots', 'weakref_slot']
 def dc2(ctx):
     pkg = ctx.py()
     mod = pkg.mod('optree.dataclasses')
-    for fname, dictname in (('dataclass', 'kwargs'), ('make_dataclass', 'dataclass_kwargs')):
+    allpairs = {}
+    for fname in ('dataclass', 'make_dataclass'):
         fn = mod.func(fname)
-        lit = [s for s in fn.body if isinstance(s, ast.Assign) and is_name(s.targets[0], dictname)
-               and isinstance(s.value, ast.Dict)]
-        ctx.require(len(lit) == 1, '%s: literal %s = {...} not found' % (fname, dictname))
-        pairs = {k.value: src(v) for k, v in zip(lit[0].value.keys, lit[0].value.values)
-                 if isinstance(k, ast.Constant)}
-        stores = {}
-        for s in walk(fn):
-            if isinstance(s, ast.Assign) and isinstance(s.targets[0], ast.Subscript) and \
-                    is_name(s.targets[0].value, dictname) and isinstance(s.targets[0].slice, ast.Constant):
-                stores[s.targets[0].slice.value] = src(s.value)
+        tgt = 'dataclasses.dataclass' if fname == 'dataclass' else 'dataclasses.make_dataclass'
+        calls = [c for c in calls_under(fn) if call_name(c) == tgt]
+        ctx.require(len(calls) == 1, '%s: %d calls of %s' % (fname, len(calls), tgt))
+        # the dictionaries splatted into the stdlib call (whatever they are called)
+        splat = [k.value.id for k in calls[0].keywords if k.arg is None and isinstance(k.value, ast.Name)]
+        ctx.require(splat, '%s: no **<dict> passed to %s' % (fname, tgt))
+        pairs, stores = {}, {}
+        nlit = 0
+        for dictname in splat:
+            for s in walk(fn):
+                if isinstance(s, ast.Assign) and is_name(s.targets[0], dictname) and isinstance(s.value, ast.Dict):
+                    nlit += 1
+                    pairs.update({k.value: src(v) for k, v in zip(s.value.keys, s.value.values)
+                                  if isinstance(k, ast.Constant)})
+                if isinstance(s, ast.Assign) and isinstance(s.targets[0], ast.Subscript) and \
+                        is_name(s.targets[0].value, dictname) and isinstance(s.targets[0].slice, ast.Constant):
+                    stores[s.targets[0].slice.value] = src(s.value)
+        ctx.require(nlit >= 1, '%s: no literal dictionary feeds %s' % (fname, tgt))
+        allpairs[fname] = pairs
         for k in DC_KW:
             ctx.check('%s/kw/%s' % (fname, k), pairs.get(k) == k,
                       '%s: `%s` is forwarded as %s=%s' % (fname, k, k, k),
-                      '%s: keyword `%s` is routed to %s' % (fname, k, pairs.get(k)), mod.loc(lit[0]))
+                      '%s: keyword `%s` is routed to %s' % (fname, k, pairs.get(k)), mod.loc(fn))
         for k in DC_KW_VERSIONED:
             ctx.check('%s/kw/%s' % (fname, k), stores.get(k) == k,
                       '%s: `%s` is forwarded under its own name (version guarded)' % (fname, k),
                       '%s: keyword `%s` is routed to %s' % (fname, k, stores.get(k)), mod.loc(fn))
-        tgt = 'dataclasses.dataclass' if fname == 'dataclass' else 'dataclasses.make_dataclass'
-        calls = [c for c in calls_under(fn) if call_name(c) == tgt]
-        ok = len(calls) == 1 and any(k.arg is None and is_name(k.value, dictname) for k in calls[0].keywords)
-        ctx.check('%s/kwargs-splat' % fname, ok,
-                  '%s passes **%s to %s' % (fname, dictname, tgt),
-                  '%s does not pass **%s to %s' % (fname, dictname, tgt), mod.loc(fn))
+        ctx.check('%s/kwargs-splat' % fname, True,
+                  '%s passes **%s to %s' % (fname, ', **'.join(splat), tgt), None, mod.loc(fn))
     fn = mod.func('make_dataclass')
-    lit = [s for s in fn.body if isinstance(s, ast.Assign) and is_name(s.targets[0], 'make_dataclass_kwargs')]
-    pairs = {}
-    if lit and isinstance(lit[0].value, ast.Dict):
-        pairs = {k.value: src(v) for k, v in zip(lit[0].value.keys, lit[0].value.values)}
+    pairs = {k: v for k, v in allpairs['make_dataclass'].items() if k in ('bases', 'namespace')}
     ctx.check('make_dataclass/bases-ns', pairs == {'bases': 'bases', 'namespace': 'ns'},
               'make_dataclass routes bases=bases and the class-dict argument ns -> namespace=',
               'make_dataclass routes %s' % pairs, mod.loc(fn))
@@ -176,25 +225,33 @@ def dc3(ctx):
     reg = [c for c in calls_under(rfn) if call_name(c) == 'register_pytree_node']
     std = [c for c in calls_under(fn) if call_name(c) == 'dataclasses.dataclass']
     ctx.require(reg and std, 'dataclass(): register / dataclasses.dataclass calls not found')
-    twice = [s for s in walk(fn) if isinstance(s, ast.If) and src(s.test) == '_FIELDS in cls.__dict__'
+    # the marker attribute: whatever the registration function sets with setattr(<class>, M, ...)
+    rcls = _first_param(rfn)
+    mark = [e for e in (pmatch(s, 'setattr(?c, ??marker, ??v)', {'c': rcls}) for s in walk(rfn)
+                        if isinstance(s, ast.Expr)) if e is not None]
+    marker = mark[0]['marker'] if mark else None
+    twice = [s for s in walk(fn) if isinstance(s, ast.If) and marker is not None and
+             pmatch(s.test, '??marker in cls.__dict__', {'marker': marker}) is not None
              and any(isinstance(x, ast.Raise) and call_name(x.exc) == 'TypeError' for x in s.body)]
     ok = bool(twice) and cfg.dominates(_first_cond(cfg, twice[0].test), cfg.node_of(std[0]))
     ctx.check('dataclass/twice-rejected', ok,
               'decorating a class twice raises TypeError before dataclasses.dataclass runs',
               'the decorated-twice rejection is missing or does not dominate dataclasses.dataclass',
               mod.loc(fn))
-    mark = [s for s in walk(rfn) if isinstance(s, ast.Expr) and call_name(s.value) == 'setattr'
-            and len(s.value.args) == 3 and src(s.value.args[1]) == '_FIELDS']
-    ctx.check('dataclass/marker-set', bool(mark),
-              'the class is marked with _FIELDS (what the twice-check looks for)',
-              'the _FIELDS marker is never set: the twice-check can never fire', mod.loc(fn))
+    ctx.check('dataclass/marker-set', bool(mark) and bool(twice),
+              'the class is marked with the attribute the twice-check looks for',
+              'no marker attribute is set by the registration / looked for by the twice-check: '
+              'the twice-check can never fire', mod.loc(fn))
     f2 = mod.func('field')
     cfg2 = pycfg(f2)
     ret = [c for c in calls_under(f2) if call_name(c) == 'dataclasses.field']
-    rej = [s for s in walk(f2) if isinstance(s, ast.If) and src(s.test) == 'not init and pytree_node'
+    rej = [s for s in walk(f2) if isinstance(s, ast.If) and
+           (pmatch(s.test, 'not init and pytree_node') is not None or
+            pmatch(s.test, 'pytree_node and not init') is not None)
            and any(isinstance(x, ast.Raise) and call_name(x.exc) == 'TypeError' for x in s.body)]
-    store = [s for s in walk(f2) if isinstance(s, ast.Assign) and src(s.targets[0]) == "metadata['pytree_node']"
-             and src(s.value) == 'pytree_node']
+    # the dict that is stored must be the one passed on as metadata=
+    store = [s for s in walk(f2) if isinstance(s, ast.Assign) and
+             pmatch(s, "?md['pytree_node'] = pytree_node") is not None]
     ok = bool(ret) and bool(rej) and bool(store) and \
         cfg2.dominates(_first_cond(cfg2, rej[0].test), cfg2.node_of(ret[0])) and \
         cfg2.dominates(cfg2.node_of(store[0]), cfg2.node_of(ret[0]))
@@ -219,8 +276,13 @@ def dc4(ctx):
     ctx.check('partial/flatten', ok,
               'partial flattens to children (args, keywords), metadata func, entries ("args", "keywords")',
               'partial.tree_flatten returns %s' % (src(ret[0].value) if ret else None), mod.loc(fl))
-    oku = any(src(s) == 'args, keywords = children' for s in un.body) and \
-        any(isinstance(s, ast.Return) and src(s.value) == 'cls(metadata, *args, **keywords)' for s in un.body)
+    ups = [a.arg for a in un.args.posonlyargs + un.args.args]
+    oku = False
+    if len(ups) == 3:
+        uenv = {'cls': ups[0], 'meta': ups[1], 'ch': ups[2]}
+        un_ = [e for e in (pmatch(s, '?a, ?k = ?ch', uenv) for s in un.body) if e is not None]
+        oku = bool(un_) and any(isinstance(s, ast.Return) and pmatch(s.value, '?cls(?meta, *?a, **?k)', un_[0])
+                                for s in un.body)
     ctx.check('partial/unflatten', oku,
               'partial.tree_unflatten rebuilds cls(func, *args, **keywords) from (args, keywords)',
               'partial.tree_unflatten is not the inverse of tree_flatten', mod.loc(un))
@@ -236,7 +298,8 @@ def dc4(ctx):
               'TREE_PATH_ENTRY_TYPE is not GetAttrEntry', mod.loc(cls))
     # shim before super().__new__ for wrapped functools.partial
     cfgn = pycfg(new)
-    guard = [s for s in walk(new) if isinstance(s, ast.If) and src(s.test) == 'isinstance(func, functools.partial)']
+    guard = [s for s in walk(new) if isinstance(s, ast.If) and
+             pmatch(s.test, 'isinstance(func, functools.partial)') is not None]
     oks = False
     if guard:
         shim = [s for s in guard[0].body if isinstance(s, ast.Assign) and is_name(s.targets[0], 'func')
@@ -328,7 +391,109 @@ def _partials(fn):
             and c.args and isinstance(c.args[0], ast.Name)]
 
 
-@rule('R1', floor=9, title='every partial in the ravel code binds exactly the leading parameters of its target, by name')
+# ---- roles of the values that travel from ravel to unravel ---------------------------------------
+# A partial binds values computed in the ravel function to the leading parameters of an unravel
+# function.  Which value must land in which parameter is decided by what the value *is* (how it is
+# computed) and what the parameter is *used for*, never by how either is spelled.
+def _mentions(e, *names):
+    for n in ast.walk(e):
+        if isinstance(n, ast.Attribute) and n.attr in names:
+            return True
+        if isinstance(n, ast.Name) and n.id in names:
+            return True
+    return False
+
+
+def _def_roles(fn):
+    """variable -> role, from the assignments of a ravel-side function"""
+    roles = {}
+    leaves = _first_param(fn)
+    for s_ in walk(fn):
+        if not isinstance(s_, ast.Assign) or len(s_.targets) != 1:
+            continue
+        t, v = s_.targets[0], s_.value
+        if isinstance(t, ast.Tuple) and isinstance(v, ast.Call) and len(t.elts) == 2 and \
+                all(isinstance(x, ast.Name) for x in t.elts):
+            if call_name(v) == 'tree_flatten':
+                roles[t.elts[1].id] = 'TREESPEC'
+            elif call_name(v) == '_ravel_leaves':
+                roles[t.elts[1].id] = 'UNRAVEL'
+            continue
+        if not isinstance(t, ast.Name):
+            continue
+        r = None
+        m = pmatch(v, 'tuple(??elt for ?x in ?ls)')
+        if m is not None and m['ls'] == leaves:
+            elt = v.args[0].elt
+            if _mentions(elt, 'shape'):
+                r = 'SHAPES'
+            elif _mentions(elt, 'result_type', 'dtype'):
+                r = 'DTYPES'
+            elif _mentions(elt, 'size', 'numel'):
+                r = 'SPLITS'
+        elif isinstance(v, ast.Call) and _mentions(v, 'accumulate', 'cumsum') and \
+                any(roles.get(n.id) == 'SPLITS' for n in ast.walk(v) if isinstance(n, ast.Name)):
+            r = 'SPLITS'
+        elif _mentions(v, 'result_type', 'promote_types') or \
+                (isinstance(v, ast.Subscript) and isinstance(v.value, ast.Name) and
+                 roles.get(v.value.id) == 'DTYPES'):
+            r = 'DTYPE'
+        if r is not None and roles.get(t.id, r) == r:
+            roles[t.id] = r
+    return roles
+
+
+def _use_roles(fn):
+    """parameter -> role, from how an unravel-side function uses it"""
+    ps = [a.arg for a in fn.args.posonlyargs + fn.args.args]
+    roles = {}
+    for c in calls_under(fn):
+        cn = call_name(c) or ''
+        if cn == 'tree_unflatten' and c.args and isinstance(c.args[0], ast.Name):
+            roles[c.args[0].id] = 'TREESPEC'
+        if isinstance(c.func, ast.Name) and c.func.id in ps:
+            roles[c.func.id] = 'UNRAVEL'
+        if cn.endswith('.split') or cn == 'split':
+            for a in c.args[1:]:
+                for n in ast.walk(a):
+                    if isinstance(n, ast.Name) and n.id in ps:
+                        roles[n.id] = 'SPLITS'
+    # the strict zip: position k of safe_zip feeds target k of the comprehension
+    for comp in [n for n in walk(fn) if isinstance(n, ast.ListComp)]:
+        g = comp.generators[0]
+        if not (isinstance(g.iter, ast.Call) and call_name(g.iter) in ('safe_zip', 'zip') and
+                isinstance(g.target, ast.Tuple)):
+            continue
+        tg = [x.id if isinstance(x, ast.Name) else None for x in g.target.elts]
+        for c in [n for n in ast.walk(comp.elt) if isinstance(n, ast.Call) and isinstance(n.func, ast.Attribute)]:
+            role = {'reshape': 'SHAPES', 'astype': 'DTYPES', 'to': 'DTYPES',
+                    'convert_element_type': 'DTYPES'}.get(c.func.attr)
+            if role is None:
+                continue
+            # x.astype(d) / x.to(d) / lax.convert_element_type(x, d): the last argument is the role
+            for a in (c.args[-1:] if c.func.attr == 'convert_element_type' else c.args):
+                if isinstance(a, ast.Name) and a.id in tg:
+                    k = tg.index(a.id)
+                    if k < len(g.iter.args) and isinstance(g.iter.args[k], ast.Name):
+                        roles[g.iter.args[k].id] = role
+    for s_ in walk(fn):
+        if isinstance(s_, ast.If) and isinstance(s_.test, ast.Compare) and len(s_.test.ops) == 1 and \
+                isinstance(s_.test.ops[0], ast.NotEq):
+            sides = [s_.test.left, s_.test.comparators[0]]
+            for a, b in (sides, sides[::-1]):
+                if isinstance(a, ast.Name) and a.id in ps and a.id not in roles and \
+                        (_mentions(b, 'dtype', 'result_type') or
+                         (isinstance(b, ast.Name) and _dtype_local(fn, b.id))):
+                    roles[a.id] = 'DTYPE'
+    return {k: v for k, v in roles.items() if k in ps}
+
+
+def _dtype_local(fn, name):
+    return any(isinstance(s_, ast.Assign) and is_name(s_.targets[0], name) and
+               _mentions(s_.value, 'dtype', 'result_type') for s_ in walk(fn))
+
+
+@rule('R1', floor=9, title='every partial in the ravel code binds to each leading parameter of its target the value that parameter is used for')
 def r1(ctx):
     pkg = ctx.py()
     for mname in BACKENDS:
@@ -336,18 +501,26 @@ def r1(ctx):
         b = mname.split('.')[-1]
         for fname in ('tree_ravel', '_ravel_leaves'):
             fn = mod.func(fname)
+            droles = _def_roles(fn)
             for i, c in enumerate(_partials(fn)):
                 tgt = mod.funcs.get(c.args[0].id)
                 ctx.require(tgt is not None, '%s.%s: partial target %s not found' % (b, fname, c.args[0].id))
                 pos, var, kwonly, kw = param_names(tgt)
-                bound = [src(a) for a in c.args[1:]]
-                ok = bound == pos[:len(bound)] and len(pos) == len(bound) + 1 and not c.keywords
+                uroles = _use_roles(tgt)
+                bound = c.args[1:]
+                got = [droles.get(a.id) if isinstance(a, ast.Name) else None for a in bound]
+                want = [uroles.get(p) for p in pos[:len(bound)]]
+                ctx.require(all(w is not None for w in want),
+                            '%s.%s: use of the parameters %s of %s not recognised (%s)'
+                            % (b, fname, pos[:len(bound)], c.args[0].id, want))
+                ok = got == want and len(pos) == len(bound) + 1 and not c.keywords
                 ctx.check('%s.%s/partial(%s)' % (b, fname, c.args[0].id), ok,
-                          '%s.%s binds %s of %s%s, leaving `%s`' % (b, fname, bound, c.args[0].id,
-                                                                    tuple(pos), pos[-1] if pos else None),
-                          '%s.%s: partial(%s, %s) does not bind the leading parameters %s of the '
-                          'target in order (values would land in the wrong slots)'
-                          % (b, fname, c.args[0].id, ', '.join(bound), pos[:-1]), mod.loc(c))
+                          '%s.%s binds %s to the parameters of %s used as %s, leaving `%s`'
+                          % (b, fname, [src(a) for a in bound], c.args[0].id, want, pos[-1] if pos else None),
+                          '%s.%s: partial(%s, %s) binds values computed as %s to parameters that %s '
+                          'uses as %s (values would land in the wrong slots)'
+                          % (b, fname, c.args[0].id, ', '.join(src(a) for a in bound), got,
+                             c.args[0].id, want), mod.loc(c))
 
 
 @rule('R2', floor=15, title='unravel functions check shape (and dtype when mixed) before splitting and join with a strict zip')
@@ -368,35 +541,52 @@ def r2(ctx):
             rets = [s for s in walk(fn) if isinstance(s, ast.Return)]
             ctx.require(len(rets) == 1, '%s.%s: %d returns' % (b, fname, len(rets)))
             rn = cfg.node_of(rets[0])
+            uroles = _use_roles(fn)
 
             def guard(pred):
                 for s in walk(fn):
-                    if isinstance(s, ast.If) and pred(src(s.test)) and \
+                    if isinstance(s, ast.If) and pred(s.test) and \
                             any(isinstance(x, ast.Raise) and call_name(x.exc) == 'ValueError' for x in s.body):
                         c = cfg.node_of(s.test)
                         if c is not None and cfg.dominates(c, rn):
                             return True
                 return False
             ctx.check('%s.%s/shape-guard' % (b, fname),
-                      guard(lambda t: 'shape' in t and '!=' in t),
+                      guard(lambda t: _mentions(t, 'shape') and '!=' in src(t)),
                       '%s.%s rejects a wrongly shaped array (ValueError) before splitting' % (b, fname),
                       '%s.%s: the shape guard is missing or does not dominate the result' % (b, fname),
                       mod.loc(fn))
             if fname == '_unravel_leaves':
+                dt = [p_ for p_, r in uroles.items() if r == 'DTYPE']
                 ctx.check('%s.%s/dtype-guard' % (b, fname),
-                          guard(lambda t: 'dtype' in t and '!=' in t and 'to_dtype' in t),
+                          bool(dt) and guard(lambda t: isinstance(t, ast.Compare) and
+                                             isinstance(t.ops[0], ast.NotEq) and
+                                             any(is_name(x, dt[0]) for x in [t.left] + t.comparators)),
                           '%s.%s rejects an array of the wrong dtype (mixed-dtype case)' % (b, fname),
                           '%s.%s: the dtype guard is missing or does not dominate the result' % (b, fname),
                           mod.loc(fn))
             if fname != '_unravel_empty':
                 zips = [c for c in calls_under(fn) if call_name(c) == 'safe_zip']
                 plain = [c for c in calls_under(fn) if call_name(c) == 'zip']
-                want = ['chunks', 'shapes'] + (['from_dtypes'] if fname == '_unravel_leaves' else [])
-                ok = len(zips) == 1 and [src(a) for a in zips[0].args] == want and not plain
+                want = ['CHUNKS', 'SHAPES'] + (['DTYPES'] if fname == '_unravel_leaves' else [])
+                got = []
+                if len(zips) == 1:
+                    for a in zips[0].args:
+                        nm = a.id if isinstance(a, ast.Name) else None
+                        if nm in uroles:
+                            got.append(uroles[nm])
+                        elif nm is not None and any(
+                                isinstance(s_, ast.Assign) and is_name(s_.targets[0], nm) and
+                                isinstance(s_.value, ast.Call) and (call_name(s_.value) or '').split('.')[-1] == 'split'
+                                for s_ in walk(fn)):
+                            got.append('CHUNKS')
+                        else:
+                            got.append('?')
+                ok = len(zips) == 1 and got == want and not plain
                 ctx.check('%s.%s/strict-zip' % (b, fname), ok,
                           '%s.%s joins %s with safe_zip' % (b, fname, want),
-                          '%s.%s does not join %s with safe_zip (a silent truncation would drop leaves)'
-                          % (b, fname, want), mod.loc(fn))
+                          '%s.%s does not join %s with safe_zip (a silent truncation would drop leaves): %s'
+                          % (b, fname, want, got), mod.loc(fn))
 
 
 def _is_all_equal(test):
@@ -431,13 +621,15 @@ def r3(ctx):
         mod = pkg.mod(mname)
         b = mname.split('.')[-1]
         for fname in RAVEL_FUNCS:
-            ctx.check('%s/%s/exists' % (b, fname), fname in mod.funcs,
-                      '%s defines %s' % (b, fname), '%s lacks %s' % (b, fname), mod.relpath + ':1')
+            # anchors: a renamed helper is an analysis error (re-point the table), not a violation
+            ctx.require(fname in mod.funcs, '%s: helper %s not found (renamed?)' % (b, fname))
+            ctx.ok('%s/%s/exists' % (b, fname), '%s defines %s' % (b, fname), mod.relpath + ':1')
         fn = mod.funcs.get('_ravel_leaves')
         if fn is None:
             continue
         parts = [c.args[0].id for c in _partials(fn)]
-        empties = [s for s in fn.body if isinstance(s, ast.If) and src(s.test) == 'not leaves']
+        empties = [s for s in fn.body if isinstance(s, ast.If) and
+                   pmatch(s.test, 'not ?x', {'x': _first_param(fn)}) is not None]
         single = [s for s in walk(fn) if isinstance(s, ast.If) and _is_all_equal(s.test)]
         shapes[b] = (parts, bool(empties), bool(single))
         tr = mod.funcs.get('tree_ravel')
@@ -467,10 +659,12 @@ def r4(ctx):
         mod = pkg.mod(mname)
         b = mname.split('.')[-1]
         fn = mod.func('_ravel_leaves')
-        defs = [s for s in walk(fn) if isinstance(s, ast.Assign) and is_name(s.targets[0], 'to_dtype')]
-        ctx.require(len(defs) >= 1, '%s._ravel_leaves: no definition of to_dtype' % b)
+        dvars = {v for v, r in _def_roles(fn).items() if r == 'DTYPE'}
+        defs = [s for s in walk(fn) if isinstance(s, ast.Assign) and isinstance(s.targets[0], ast.Name)
+                and s.targets[0].id in dvars]
+        ctx.require(len(defs) >= 1, '%s._ravel_leaves: no definition of the common dtype' % b)
         text = ' ; '.join(src(d_.value) for d_ in defs)
-        pairwise_np = bool(re.search(r'reduce\(\s*(np|numpy)\.promote_types', text))
+        pairwise_np = any(_mentions(d_.value, 'promote_types') for d_ in defs)
         ctx.check('%s._ravel_leaves/promotion' % b, not (b == 'numpy' and pairwise_np),
                   '%s: common dtype computed as `%s`' % (b, text),
                   'numpy backend folds np.promote_types pairwise (`%s`): that operation is not '
